@@ -319,6 +319,51 @@ theorem output_eq_decRun (p : Params) (pieces : List (Method × List UInt8)) :
     | error e' => rw [hd] at h; simp at h
     | ok o => rw [hd] at h; simp only at h; simp only [h]
 
+/-- The decoder only ever appends (no `register_patch`, no backfill) — also in calls that fail. -/
+theorem once_appendOnly (p : Params) (m : Method) (s : DecState) (b : UInt8) (rest : List UInt8) :
+    match Dec.once p m s b rest with
+    | .error (_, es) => AppendOnly es
+    | .ok o => AppendOnly o.emits := by
+  cases s with
+  | initial =>
+    simp only [Dec.once]
+    by_cases h1 : b.toNat > p.maxInit
+    · simp [h1, AppendOnly]
+    · by_cases h2 : b.toNat > 0 <;> simp [h1, h2, AppendOnly]
+  | beforeChunk ins =>
+    simp only [Dec.once]
+    by_cases h1 : b.toNat ≥ p.radix <;> cases ins <;> simp [h1, AppendOnly, Op.isAppend]
+  | midHeader b0 =>
+    simp only [Dec.once]
+    by_cases h1 : b.toNat ≥ p.radix
+    · simp [h1, AppendOnly]
+    · by_cases h2 : b0.toNat + b.toNat * p.radix > p.maxSub
+      · simp [h1, h2, AppendOnly]
+      · by_cases h3 : b0.toNat + b.toNat * p.radix > 0 <;> simp [h1, h2, h3, AppendOnly]
+  | inChunk rem term => simp [Dec.once, AppendOnly, Op.isAppend]
+
+theorem feed_appendOnly (p : Params) (m : Method) (fuel : Nat) (s : DecState) (input : List UInt8) :
+    match Dec.feed p m fuel s input with
+    | .error (_, es) => AppendOnly es
+    | .ok (_, es) => AppendOnly es := by
+  induction fuel generalizing s input with
+  | zero => simp [Dec.feed]
+  | succ fuel ih =>
+    cases input with
+    | nil => simp [Dec.feed]
+    | cons b rest =>
+      have h1 := once_appendOnly p m s b rest
+      simp only [Dec.feed]
+      cases ho : Dec.once p m s b rest with
+      | error ee => rw [ho] at h1; obtain ⟨e, es⟩ := ee; exact h1
+      | ok o =>
+        rw [ho] at h1
+        have h2 := ih o.st (List.drop o.consumed (b :: rest))
+        simp only
+        cases hr : Dec.feed p m fuel o.st (List.drop o.consumed (b :: rest)) with
+        | error ee => rw [hr] at h2; obtain ⟨e, es⟩ := ee; exact appendOnly_append h1 h2
+        | ok se => rw [hr] at h2; obtain ⟨s1, es1⟩ := se; exact appendOnly_append h1 h2
+
 /-! ### bridge 2: the byte-level reference run = `Spec.decode` -/
 
 theorem finishB_andThen_ok (s : DecState) (o : List UInt8) (k) :
